@@ -64,12 +64,15 @@ theorem c13rev_lazy_finalisation (P : Prog) (sub : Eng) (s : St) (c : Nat) (m : 
     verifyMemo P sub c m s = .ok (false, s) :=
   verifyMemo_stale_participant P sub s c m h hprov hh hva it va hst hne
 
-/-- **refinement per certified state**, every revision of every history. -/
+/-- **refinement per certified state**, every revision of every history (gate-free `cycle_result`
+    programs: the fallback theorems of `Model/Cycle.lean` need `NoGate`; the generators emit gates
+    only in fixpoint programs). -/
 theorem c13rev_reference_if_closed (P : Prog) (s : St) (R : List Nat) (hW : (toCycle P).Wf)
+    (hG : (toCycle P).NoGate)
     (hA : SalsaVerif.Proofs.Cycle.allFb (toCycle P) = true) (hc : fbClosedOn P s R = true)
     (x w : Nat) (hx : x ∈ R) (hv : finalVal s x = some w) :
     w = Cycle.fbReference (toCycle P) (envI s.inp) x :=
-  fbClosed_reference P s R hW hA hc x w hx hv
+  fbClosed_reference P s R hW hG hA hc x w hx hv
 
 /-! ## non-vacuity -/
 
